@@ -92,7 +92,7 @@ def random_history(rng, led, n_blocks, flaw_prob):
             c = parent[c]
         chain.reverse()
         honest = rng.random() >= flaw_prob
-        body = led.body(rng, chain, 3) if honest else []
+        body = led.pick(chain, honest) if hasattr(led, "pick") else (led.body(rng, chain, 3) if honest else [])
         work = 3 if rng.random() < 0.3 else 1
         bodies[b], parent[b], number[b] = body, p, number[p] + 1
         steps.append({"b": b, "parent": p, "work": work, "honest": honest, "txs": body})
@@ -101,7 +101,41 @@ def random_history(rng, led, n_blocks, flaw_prob):
     return spec_main(steps)[0]
 
 
-def run_chain(c, txs, genesis, hists, procs, tag, all_upto):
+def epoch_history(rng, pick_body, gen):
+    """a main branch across the first epoch boundary (block 4) with uneven timestamps, a side branch forking at or after
+    the last block of epoch 0 that overtakes it, then the old branch overtakes again; `main` is filled by the harness"""
+    steps, bodies, parent = [], {0: list(gen)}, {0: 0}
+    fast = rng.random() < 0.5
+
+    def mine(p):
+        b = len(steps) + 1
+        chain, x = [], p
+        while True:
+            chain.append(bodies[x])
+            if x == 0:
+                break
+            x = parent[x]
+        chain.reverse()
+        body = pick_body(chain, True)
+        bodies[b], parent[b] = body, p
+        n = len(chain)                                   # number of the new block
+        gap = (rng.randrange(1000, 3000) if fast else rng.randrange(20000, 40000)) if n <= 4 else rng.randrange(4000, 16000)
+        steps.append({"b": b, "parent": p, "work": 1, "honest": True, "txs": body, "main": [], "gap_ms": gap})
+        return b
+    tip, mainb = 0, [0]
+    for _ in range(rng.randrange(6, 9)):
+        tip = mine(tip)
+        mainb.append(tip)
+    f = rng.randrange(3, len(mainb) - 2)                 # fork point: number >= 3, at least two blocks detached
+    side = mainb[f]
+    for _ in range(len(mainb) - 1 - f + 1):
+        side = mine(side)
+    for _ in range(2):
+        tip = mine(tip)
+    return steps
+
+
+def run_chain(c, txs, genesis, hists, procs, tag, all_upto, extra=None):
     wd = V.workdir(PID, "run_" + tag, fresh=True)
     # at most 14 histories per process: the filter service of every history's node keeps that node's Shared alive
     # until the process ends (≈ 100 MB each)
@@ -111,8 +145,8 @@ def run_chain(c, txs, genesis, hists, procs, tag, all_upto):
     for ci, chunk in enumerate(chunks):
         f = os.path.join(wd, "in%d.json" % ci)
         with open(f, "w") as fh:
-            json.dump({"scripts": L.SCRIPTS, "txs": txs, "genesis_txs": genesis, "hists": chunk, "seed": V.seed() * 100 + ci,
-                       "all_subsets_upto": all_upto}, fh)
+            json.dump(dict({"scripts": L.SCRIPTS, "txs": txs, "genesis_txs": genesis, "hists": chunk, "seed": V.seed() * 100 + ci,
+                            "all_subsets_upto": all_upto}, **(extra or {})), fh)
         jobs.append(f)
 
     def run(f):
@@ -121,6 +155,7 @@ def run_chain(c, txs, genesis, hists, procs, tag, all_upto):
 
     V.build_harness("c19")
     tot = {}
+    terr = []
     by_id = {h["id"]: h for h in hists}
     with cf.ThreadPoolExecutor(max_workers=procs) as ex:
         for f, rc, out in ex.map(run, jobs):
@@ -129,9 +164,7 @@ def run_chain(c, txs, genesis, hists, procs, tag, all_upto):
             if rc != 0 or not summ:
                 V.log(out[-3000:])
                 raise V.ToolError("c19 chain failed rc=%d on %s" % (rc, f))
-            terr = [x["tool_error"] for x in lines if "tool_error" in x]
-            if terr:
-                raise V.ToolError("c19 chain: %s" % terr[:3])
+            terr += [x["tool_error"] for x in lines if "tool_error" in x]
             for k, v in summ[0].items():
                 if isinstance(v, int):
                     tot[k] = tot.get(k, 0) + v
@@ -140,7 +173,11 @@ def run_chain(c, txs, genesis, hists, procs, tag, all_upto):
                     m = x["mismatch"]
                     h = by_id[m["hist"]]
                     c.violation("chain/" + m["kind"], "%s (history %s step %s)" % (m["detail"], m["hist"], m["step"]),
-                                {"kind": "history", "txs": txs, "genesis": genesis, "hist": h, "all_upto": all_upto, "mismatch": m})
+                                {"kind": "history", "txs": txs, "genesis": genesis, "hist": h, "all_upto": all_upto,
+                                 "extra": extra, "mismatch": m})
+    # violations first: a history that stops after a mismatch also produces knock-on tool errors
+    if terr and not c.violations:
+        raise V.ToolError("c19 chain: %s" % terr[:3])
     return tot
 
 
@@ -172,6 +209,18 @@ def run_growth_lightclient(c, tier):
 
 def run(tier):
     c = V.Check(PID, "model_checking", tier)
+    try:
+        return _run(c, tier)
+    except V.ToolError as e:
+        # a tool error / vacuity guard after a violation must never hide it
+        if c.violations:
+            V.log("TOOL-ERROR after %d violation(s) (exit code stays 1): %s" % (len(c.violations), e))
+            c.finish()
+            return 1
+        raise
+
+
+def _run(c, tier):
     quick = tier == "quick"
     gex = cf.ThreadPoolExecutor(max_workers=1)                   # growth (light-client server): next to the other phases
     gfut = gex.submit(run_growth_lightclient, c, tier)
@@ -213,8 +262,29 @@ def run(tier):
     c.set("tlc_histories_exported", {"exhaustive_4_blocks": len(h4), "simulated_6_blocks": len(hsim)})
     if len(h4) < 500 or len(hsim) < 50:
         raise V.ToolError("too few histories exported")
-    txs, gen = L.random_universe(rng, 4, 14)
+    txs, gen = L.random_universe(rng, 5, 14)
+    # "typed input under a repeated lock": g1 gives one owner (lock s1) a plain and a typed (s3) cell, g2 spends both
+    # (plain first) into another lock; s3 then occurs in g2's block only as the type of a spent cell
+    g1 = len(txs) + 1
+    txs.append({"ins": [[gen[-1], 0]], "outs": [L.O("s1", L.NONE, 20000, 0), L.O("s1", "s3", 29999, 1)]})
+    txs.append({"ins": [[g1, 0], [g1, 1]], "outs": [L.O("s2", L.NONE, 49998, 0)]})
+    gadget = [g1, g1 + 1]
     led = L.PyLedger(txs, gen)
+
+    def pick_body(chain, honest):
+        """valid body for a block on `chain`; half of the time the gadget transactions go first when they are valid"""
+        if not honest:
+            return []
+        body = []
+        if rng.random() < 0.5:
+            live, used = led.state(chain)
+            for t in gadget:
+                ins = [(i[0], i[1]) for i in txs[t - 1]["ins"]]
+                if t not in used and all(i in live for i in ins) and not body:
+                    body.append(t)            # one gadget transaction per block: g2 sits in a later block than g1
+        rest = [t for t in led.body(rng, chain + [body], 2) if t not in gadget] if body else led.body(rng, chain, 3)
+        return body + rest
+    led.pick = pick_body
 
     def decorate(h):
         """give the model's blocks bodies (python chooses inputs only); flawed blocks stay empty"""
@@ -228,12 +298,14 @@ def run(tier):
                     break
                 x = parent[x]
             chain.reverse()
-            body = led.body(rng, chain, 3) if s["honest"] else []
+            body = pick_body(chain, s["honest"])
             bodies[s["b"]], parent[s["b"]] = body, s["parent"]
             out.append(dict(s, txs=body))
         return out
 
     def reorgs(h):
+        if h and h[0].get("gap_ms"):
+            return 2                                     # epoch histories are built around two reorganisations
         n, prev = 0, [0]
         for s in h:
             if s["main"] != prev and s["main"][:-1] != prev:
@@ -252,6 +324,17 @@ def run(tier):
         hid += 1
         hists.append({"id": hid, "steps": random_history(rng, led, rng.randrange(7, 13), 0.08), "src": "random"})
     tot = run_chain(c, txs, gen, hists, 4, "chain", 7)
+    # histories that cross an epoch boundary with REAL difficulty adjustment (epochs of 4 blocks, uneven timestamps):
+    # merged digests then cover blocks with different compact targets; the expected main chain follows the spec's
+    # rule on the headers' real difficulties
+    ehists = []
+    for _ in range(6 if quick else 30):
+        hid += 1
+        ehists.append({"id": hid, "steps": epoch_history(rng, pick_body, gen), "src": "epoch"})
+    etot = run_chain(c, txs, gen, ehists, 3, "epoch", 7, extra={"epoch_len": 4, "main_by_difficulty": True})
+    for k, v in etot.items():
+        tot["epoch." + k] = v
+    hists += ehists
     for h in hists:
         c.case({"steps": h["steps"]}, reorgs(h["steps"]) >= 1)
     c.add("traces_validated_against_impl", len(hists))
@@ -272,7 +355,8 @@ def run(tier):
         c.add_tlc(res, cfg)
     c.set("exhaustive", True)
     need = {"reorgs": 1, "reorgs_deeper_than_1": 1, "reorgs_to_shorter_heavier": 1, "flawed_refused": 1, "proofs_rejected_on_sibling": 1,
-            "input_script_hashes": 1, "positions": 1}
+            "input_script_hashes": 1, "positions": 1, "typed_input_under_repeated_lock": 1,
+            "epoch.digests_across_adjustment": 1, "epoch.reorgs": 1}
     miss = [k for k, v in need.items() if tot.get(k, 0) < v]
     if miss:
         raise V.ToolError("vacuous replay: %s (%s)" % (miss, tot))
@@ -295,5 +379,5 @@ def replay(path, tier):
     elif p["kind"] == "race":
         run_race(c)
     else:
-        run_chain(c, p["txs"], p["genesis"], [p["hist"]], 1, "replay", p["all_upto"])
+        run_chain(c, p["txs"], p["genesis"], [p["hist"]], 1, "replay", p["all_upto"], extra=p.get("extra"))
     return 1 if c.violations else 0
